@@ -54,7 +54,8 @@ pub fn run(scenario: Lookup, all: &[&str]) -> ! {
             let jobs = arg_val(&args, "--jobs").or_else(|| std::env::var("VERIF_JOBS").ok()).and_then(|s| s.parse().ok()).unwrap_or_else(|| unsafe { libc::sysconf(libc::_SC_NPROCESSORS_ONLN) }.max(1) as usize);
             let runs_override = arg_val(&args, "--runs").and_then(|s| s.parse().ok());
             let write_evidence = !args.iter().any(|a| a == "--no-evidence");
-            driver::check_main(sc, &CheckOpts { tier, seed, jobs, runs_override, write_evidence })
+            let extra = arg_val(&args, "--extra").and_then(|f| std::fs::read_to_string(f).ok()).and_then(|s| serde_json::from_str::<serde_json::Value>(&s).ok());
+            driver::check_main(sc, &CheckOpts { tier, seed, jobs, runs_override, write_evidence, extra })
         }
         "replay" => driver::replay_main(&scenario, &args[2], args.iter().any(|a| a == "--quiet")),
         "one" => {
